@@ -32,7 +32,7 @@ def render_num(v):
 
 
 def script_for(cfg):
-    delays, work, tick, units, tod = cfg
+    delays, work, tick, units, tod = cfg[:5]
     parts = []
     if units == 'raw':
         parts.append('units raw')
@@ -50,7 +50,7 @@ def script_for(cfg):
 
 
 def execute(cfg, chooser, window=400):
-    delays, work, tick, units, tod = cfg
+    delays, work, tick, units, tod = cfg[:5]
     text, items = script_for(cfg)
     offset = tod[2] if tod is not None and len(tod) > 2 else 0.0
     sched = vthreads.Scheduler(chooser, horizon=400.0 if not offset else 45.0, max_steps=60000,
@@ -100,6 +100,11 @@ def execute(cfg, chooser, window=400):
         m.reset()
         m.run(p.get_program())
         sched.log('run-returned')
+        if len(cfg) > 5 and cfg[5] == 'rerun':
+            # the same job is executed again at once: its delays count from ITS start
+            m.reset()
+            m.run(p.get_program())
+            sched.log('run-returned')
     # count stalls through the chooser kinds afterwards
     verdict = sched.run(main)
     obs.update(verdict=verdict, events=sched.events, errors=sched.errors, now=sched.now, points=sched.points,
@@ -110,6 +115,10 @@ def execute(cfg, chooser, window=400):
 def count_stalls(ch):
     """number of stall deviations taken in an execution (alternative index == number of enabled threads)"""
     return sum(1 for p in ch.points if p[1] != 0)      # upper bound: every deviation may be a stall
+
+
+def _tag(bad):
+    return None if bad is None else ('second-run-of-the-same-job:' + bad[0], bad[1])
 
 
 def first_match(pattern, offset):
@@ -125,7 +134,16 @@ def first_match(pattern, offset):
 
 
 def judge(cfg, obs, deviations):
-    delays, work, tick, units, tod = cfg
+    if len(cfg) > 5 and cfg[5] == 'rerun':
+        # judge each of the two runs on its own events
+        ev = obs['events']
+        cut = next((i for i, e in enumerate(ev) if e[2] == 'run-returned'), None)
+        if cut is None or obs['verdict'] is not None:
+            return judge(cfg[:5], obs, deviations)
+        first = dict(obs, events=ev[:cut + 1])
+        second = dict(obs, events=ev[cut + 1:])
+        return judge(cfg[:5], first, deviations) or _tag(judge(cfg[:5], second, deviations))
+    delays, work, tick, units, tod = cfg[:5]
     ev = obs['events']
     offset = tod[2] if tod is not None and len(tod) > 2 else 0.0
     if tod is not None and offset:
@@ -232,6 +250,11 @@ def configs(tier):
             for pattern in ('0:00', '0:01', '0:02'):
                 for work in (0, 3):
                     out.append((delays, work, 1.0, 'logical', (pos, pattern)))
+    # the same job executed twice in a row (device work makes the first run end after its last cue)
+    for delays in ((0.5,), (1, 0.5), (2.5,)):
+        for work in (0.4, 3):
+            for tick in (1.0, 0.3):
+                out.append((delays, work, tick, 'logical', None, 'rerun'))
     # around an hour boundary: the wall clock shows 08:59:57 when the script starts
     near = 8 * 3600 + 59 * 60 + 57.0
     for pattern in ('8:00', '9:00', '8:59', '*:00', '9:*'):
@@ -278,7 +301,7 @@ def run(tier, seed):
     tasks = []
     for c in cfgs:
         deep = len(c[0]) <= 2
-        tasks.append((c, (1 if deep else 0) if tier == 'quick' else (2 if len(c[0]) == 1 and c[4] is None else 1)))
+        tasks.append((c, (1 if deep else 0) if tier == 'quick' else (2 if len(c[0]) == 1 and c[4] is None and len(c) == 5 else 1)))
     results = par.run_tasks(_explore, tasks)
     tot_exec = tot_pts = outcomes = 0
     viol = {}
@@ -318,7 +341,7 @@ def replay(path):
     v = json.load(open(path))
     wit = v['witness']
     cfg = wit['config']
-    cfg = (tuple(cfg[0]), cfg[1], cfg[2], cfg[3], tuple(cfg[4]) if cfg[4] else None)
+    cfg = (tuple(cfg[0]), cfg[1], cfg[2], cfg[3], tuple(cfg[4]) if cfg[4] else None) + tuple(cfg[5:])
     ch = choice.Chooser(wit['choices'])
     obs = execute(cfg, ch)
     for e in obs['events']:
